@@ -59,6 +59,14 @@ class RngModel:
             return g(size), m(size)
         raise ValueError(kind)
 
+    def quick_sync(self):
+        """Key and position of the two MT19937 states compared through their C structs (no copies): cheap enough to be
+        evaluated after every source line.  The cached Gaussian and object identity are covered by in_sync() after the step."""
+        import ctypes
+        n = 624 * 4 + 4
+        return (ctypes.string_at(_BITGEN.ctypes.state_address, n) == ctypes.string_at(self.rs._bit_generator.ctypes.state_address, n)
+                and np.random.mtrand._rand is _GLOBAL)
+
     def in_sync(self):
         # same state bit for bit (key, position, cached Gaussian) AND still the same objects: a user may hold
         # references to the global RandomState / its bit generator
